@@ -1,4 +1,5 @@
 """C08 — async_scope join completes only after all nested work finished."""
+import re
 import k1
 from units import scope
 LEVEL = "proof"
@@ -14,6 +15,9 @@ class _Keyed:
     def violation(self, key, replay_path, no_input=False, text=""):
         if text.startswith("scope touched after"):
             key = "scope-set-after-join:" + self._variant
+        m = re.match(r"join did not complete although no work is outstanding \[([^\]]*)\]", text)
+        if m:
+            key = "scope-fault:%s/%s/count-leaked" % (self._variant, m.group(1))
         return self._chk.violation(key, replay_path, no_input=no_input, text=text)
 
 
